@@ -21,7 +21,10 @@ stmt  = {"s":"udef","slot":n,"gen":g,"spec":spec,"store":null|"l"|"d","key":k}  
       | {"s":"def","slot":n,"gen":g,"spec":spec} | {"s":"del","slot":n} | {"s":"alias","dst":n,"src":m} | {"s":"none","slot":n}
       | {"s":"lnew","gen":g,"spec":spec} | {"s":"lslot","slot":n} | {"s":"lpop"} | {"s":"lclear"}
       | {"s":"dnew","key":k,"gen":g,"spec":spec} | {"s":"dslot","key":k,"slot":n} | {"s":"ddel","key":k}
-spec  = {"states":[[ident]], "events":[v], "times":[{"p":bool,"su":bool,"sd":bool}], "svc":null|name id, "pos":k}
+      | {"s":"import","mod":k,"body":[stmt]|null}   `import mK`; when a body is given modules/mK.py is (re)written with it
+        right before the step runs (the module is not loaded then; keys "mK": null of a files step delete the file)
+spec  = {"states":[[ident]], "events":[v], "times":[{"p":bool,"su":bool,"sd":bool}], "svc":null|name id, "pos":k,
+         "crash":bool}   (crash: @time_active("range(2/30, 3/1)") - every dispatch of the function raises ValueError)
         (@service("pvsvc.s<name id>") is placed in front of the k-th trigger decorator)
 ident = {"e":ent,"k":0 plain|1 value|2 sub|3 deep,"t":tag,"any":bool}
 """
@@ -76,6 +79,8 @@ def dec_lines(spec, gen, gen_expr):
     if spec.get("svc") is not None:
         pos = max(0, min(int(spec.get("pos", len(lines))), len(lines)))
         lines.insert(pos, f'@service("pvsvc.s{spec["svc"]}")')
+    if spec.get("crash"):
+        lines.append('@time_active("range(2/30, 3/1)")')
     return lines
 
 
@@ -108,6 +113,8 @@ def stmts_src(stmts):
             elif st.get("store") == "d":
                 lines.append(f"    dct['k{st['key']}'] = wrapper")
             lines += ["    return wrapper", f"@dk_{g}", f"def f{st['slot']}(**kw):", "    " + BODY.format(g=g)]
+        elif s == "import":
+            lines.append(f"import m{st['mod']}")
         elif s == "del":
             lines.append(f"del f{st['slot']}")
         elif s == "alias":
@@ -158,7 +165,23 @@ def def_lines(src):
 
 
 def ctx_id(name):
-    return 0 if name == LIVE_CTX else int(name[len("file.s"):]) if name.startswith("file.s") else None
+    if name == LIVE_CTX:
+        return 0
+    if name.startswith("file.s"):
+        return int(name[len("file.s"):])
+    if name.startswith("modules.m"):
+        return 10 + int(name[len("modules.m"):])
+    return None
+
+
+def module_bodies(stmts):
+    """[(k, body)] of the import statements that carry the module's source, nested ones first evaluated last"""
+    out = []
+    for st in stmts or []:
+        if st.get("s") == "import" and st.get("body") is not None:
+            out.append((st["mod"], st["body"]))
+            out += module_bodies(st["body"])
+    return out
 
 
 KIND = {"state": 0, "event": 1, "time": 2, "service": 5}
@@ -303,6 +326,14 @@ class Driver:
         err = None
         if st.get("gate") and self.gate is not None:
             self.gate.event.clear()
+        all_stmts = list(st.get("stmts") or [])
+        for v in (st.get("write") or {}).values():
+            all_stmts += v or []
+        for mk, body in module_bodies(all_stmts):
+            self.mtime += 10.0
+            src = "lst = []\ndct = {}\n" + stmts_src(body)
+            self.lines[10 + mk] = def_lines(src)
+            env.write(f"modules/m{mk}.py", src, mtime=self.mtime)
         if k == "resume":
             if self.gate is not None:
                 self.gate.event.set()
@@ -312,6 +343,10 @@ class Driver:
             err = await self.live_exec(env, st.get("mode", "cell"), src)
         elif k == "files":
             for name, stmts in sorted(st["write"].items()):
+                if name.startswith("m"):
+                    if stmts is None:
+                        env.remove(f"modules/{name}.py")
+                    continue
                 if stmts is None:
                     env.remove(f"{name}.py")
                 else:
@@ -389,6 +424,9 @@ class Driver:
                 # collector from re-scanning it at every step (a full collection costs 0.15 s otherwise)
                 gc.collect()
                 gc.freeze()
+                # cyclic garbage (closures kept alive by the symbol table they capture) is collected at the quiescent points only
+                # (quiesce() calls gc.collect()): *when* the collector runs is the Python runtime, fixed here for determinism
+                gc.disable()
                 for st in self.case["steps"]:
                     n0 = len(env.events)
                     nlog = len(env.log.records)
@@ -411,6 +449,7 @@ class Driver:
         finally:
             State.notify_del = classmethod(orig_del)
             GlobalContext.start = orig_start
+            gc.enable()
             if svcmod is not None:
                 self.gate.event.set()
                 svcmod.State = self.gate.real
